@@ -143,6 +143,29 @@ claim(
     "DESIGN.md section 5 / C15",
 )
 
+claim(
+    "C07",
+    "exploration",
+    "D-lattice",
+    "bounded-exhaustive configuration lattice over the real trajectory map; oracles are properties of the map (reversibility, volume, energy order, momentum law)",
+    "The chain's own run_leapfrog is driven on a lattice of (t0, r0) for potentials {diagonal/correlated quadratic, quartic, sharp log-concave} x d<=3 x eps x n x T in {1,2.5} x mass {scalar, vector, diagonal and "
+    "off-diagonal matrix} x bounds {none, wide, tight}: forward-flip-forward returns to the start, |det J| = 1 by central differences, energy error ratio 4 when eps is halved on wall-free trajectories (derived first-order bound "
+    "on folded ones), L^T M^-1 L = I with a basis-vector generator and accept/reject with the uniform placed on either side of the threshold; finite-difference gradient vs analytic on a lattice including zero coordinates, bounded starts and T>1.",
+    "finite lattices; eps^2 clause asserted on wall-free trajectories only; volume stencils straddling a fold are moved",
+    "DESIGN.md section 5 / C07",
+)
+claim(
+    "C20",
+    "exploration",
+    "D-lattice + A-choice-tree (scripted module rng)",
+    "bounded-exhaustive enumeration of grids/tables/cells/quantiles with the module generator scripted, against the exact piecewise-linear CDF; posterior catalogue for get_conditionals",
+    "piecewise_linear_sample: all ascending grids of 2-5 (thorough 6) nodes over spacings {.5,1,2,7} x all tables over {0,1,3,10}; the p handed to choice() is captured and compared with the exact cell masses, then every "
+    "positive-probability cell x u in {0,.01,.25,.5,.75,.99} is compared with the inverse CDF of the linear density on the cell. get_conditionals / conditional_sample over 3 posterior families x scales 1e-3..1e3 x 5 bound shapes x "
+    "4 conditioning points x grid sizes: normalised, inside bounds, covering where the conditional exceeds 1e-3 of its peak, proportional to the true conditional.",
+    "assumes cells are drawn with rng.choice(p=...) and within-cell uniforms with rng.random/uniform (another sampling scheme would be a harness error, not an alarm); 'small fraction of the peak' taken as 1e-3",
+    "DESIGN.md section 5 / C20",
+)
+
 ALL = [f"C{i:02d}" for i in range(1, 21)]
 PENDING_REASON = "check under construction in this session (design in DESIGN.md section 5); not yet claimed"
 
